@@ -15,6 +15,8 @@ set_option linter.unusedSectionVars false
 set_option linter.unusedVariables false
 
 namespace PCV
+namespace C15Spec
+open PCV.MV
 
 /-- prepend `x_v^e` (nothing for `e = 0`) -/
 def consPow (v e : Nat) (t : Term) : Term := if e = 0 then t else (v, e) :: t
@@ -189,4 +191,5 @@ theorem nodup_specTerms (nv D : Nat) : (specTerms nv D).Nodup := by
     simp only [Term.degree] at this
     omega
 
+end C15Spec
 end PCV
